@@ -15,7 +15,7 @@ Paths are hex tokens (`-` = the empty string).  A list of paths is answered as `
   isvalid <root> <schema> ; <p>*            → 0|1
   append <root> <schema> ; <x>* ; <p>*      → <err==nil 0|1> list
 <schema> is `<field>* ( / <field>* )*`, one group per message descriptor, and
-<field> is `name:isGroup:msgName:target:isList:isMap` (hex names, 0|1 flags, target = index or `n`).
+<field> is `name:isGroup:textName:target:isList:isMap` (hex names, 0|1 flags, target = index or `n`).
 Anything else → `bad-op`.
 -/
 open Driver Model.FieldMask
@@ -43,14 +43,14 @@ def flagOf (s : String) : Option Bool :=
 
 def fieldOf (tok : String) : Option Field :=
   match tok.splitOn ":" with
-  | [name, g, msg, tgt, l, m] => do
+  | [name, g, txt, tgt, l, m] => do
     let name ← bytesOfHex name
     let g ← flagOf g
-    let msg ← bytesOfHex msg
+    let txt ← bytesOfHex txt
     let tgt ← (if tgt == "n" then some none else tgt.toNat?.map some)
     let l ← flagOf l
     let m ← flagOf m
-    pure { name := name, isGroup := g, msgName := msg, target := tgt, isList := l, isMap := m }
+    pure { name := name, isGroup := g, textName := txt, target := tgt, isList := l, isMap := m }
   | _ => none
 
 def schemaOf (ws : List String) : Option Schema :=
